@@ -75,7 +75,7 @@ pub fn run(a: &Args, acc: &mut Acc) {
             acc.count("c19:MsgCreateDenom");
         }
         // whatever sub-denom instantiation accepts: the denom it creates is the denom it configures
-        for weird in [format!(" {}", cfg.subdenom), format!("{} ", cfg.subdenom), format!("{}\n", cfg.subdenom), format!("\t{}", cfg.subdenom), cfg.subdenom.to_uppercase(), format!("{}x", cfg.subdenom)] {
+        for weird in [format!(" {}", cfg.subdenom), format!("{} ", cfg.subdenom), format!("{}\n", cfg.subdenom), format!("\t{}", cfg.subdenom), cfg.subdenom.to_uppercase(), format!("{}x", cfg.subdenom), "a".repeat(45), "LongSubDenom".repeat(5)] {
             let mut w = World::new(ChainKind::built(), &cfg.prefix, &cfg.native_prefix, &cfg.channel);
             let sc = &run.sc;
             let mut c2 = cfg.clone();
